@@ -9,19 +9,27 @@ MANIFEST = {
                  "(abstract SMT as Section variables) + differential correspondence with the real ABIHandler and statemachine "
                  "driving a scripted module, evaluated in Coq against the model and a declarative oracle",
     "text": "Theorems (all command scripts = arbitrary lists of set/delete/get over any stores, revertible/unrevertible events, "
-            "snapshots/restores on the context and on prefix views, then success or failure; unbounded): a command that fails leaves "
-            "the staged store exactly as it was when the command started; the events after a failed command are the earlier events, "
-            "then the command's unrevertible events re-indexed, then the standard event carrying false, and every event's index "
-            "equals its position; Commit writes exactly the staged view (deleted keys absent) and hands the tree exactly one update "
-            "per changed key (empty value for a deleted key); reverting the committed block restores every key's previous binding. "
+            "snapshots/restores on the context and on prefix views, then success or failure; all sequences of blocks, reverts and "
+            "restarts; unbounded): a command that fails leaves the staged store exactly as it was when the command started; the events "
+            "after a failed command are the earlier events, then the command's unrevertible events re-indexed, then the standard event "
+            "carrying false, and every event's index equals its position; whatever the transactions of a block do, the cache handed to "
+            "Commit is well-formed; Commit writes exactly the staged view (deleted keys absent) and the committed root is the sparse "
+            "Merkle root of the tree image of the resulting state (the root of EVERY history of tree batches that builds that image); "
+            "reverting the block restores every key's binding, the previous root and the tree-state record; restart recovery (Init) "
+            "rolls the application back to exactly the state it had at the engine's tip and succeeds iff the engine's root is that "
+            "state's root; every database reachable by any sequence of blocks / reverts / restarts satisfies the invariant. "
             "Tie: random command scripts across three module stores with snapshots inside commands, hooks, unknown commands, "
             "dry-run / expected-root commits, revert, and restart-with-application-ahead sequences on the real ABIHandler; "
-            "observables = result codes, events, values read, snapshot ids, sorted state-DB dump, tree-state record, and every "
-            "returned root compared with the real SMT root of the dumped state built from scratch.",
-    "note": "The sparse Merkle tree is abstract in the theorems (root function given; that it is a function of the map is C10's "
-            "theorem); the root clauses (root = SMT of state, revert restores root, Init recovers) are checked by the correspondence "
-            "oracle with the real smt package and are proved only at the level of the key/value updates handed to the tree. "
-            "diffdb's shared-cache semantics are those repaired under C12. Three defects repaired in /repo, see findings/C16.json.",
+            "observables = result codes, events, values read, snapshot ids, sorted state-DB dump, tree-state record, every returned "
+            "root compared with the real SMT root of the dumped state built from scratch; a second, declarative reference semantics "
+            "(plain map, no cache) is the oracle for answers, events and the committed state.",
+    "note": "The sparse Merkle tree is abstract in the theorems (tree states, batch update, root as Section variables); the only fact "
+            "assumed about it is the statement of C10_root_is_function_of_map, and C16_composed_with_C10 discharges it with the trie of "
+            "coq/SMT (no tree assumption left). Other hypotheses: SHA-256 injective, bytes.ToBools injective, tree keys have the trie's "
+            "key length, root comparison is equality; script keys are module-store keys (state prefix + 6 bytes). The 8-bit sub-tree "
+            "storage layout of pkg/trie/smt is tied to the abstract trie by C10's correspondence, and here by comparing every root "
+            "with a from-scratch real trie. diffdb's shared-cache semantics are those repaired under C12. Three defects repaired in "
+            "/repo, see findings/C16.json.",
 }
 IMPORTS = "From LE Require Import Exec.EventLog Exec.TxExec Exec.StateRoot Exec.Recovery Corr.C16."
 
